@@ -130,7 +130,9 @@ WITNESS = [
 def variants(i, kts=None, ns=None, syncs=(True, False)):
     kts = kts or KTS
     ns = ns or NS
-    return {"kt": kts[i % len(kts)], "n": ns[(i // len(kts)) % len(ns)], "sync": syncs[(i // (len(kts) * len(ns))) % len(syncs)]}
+    # strict = Config::fail_on_integrity_errors: the gate of Cas::open only; nothing else may depend on it
+    return {"kt": kts[i % len(kts)], "n": ns[(i // len(kts)) % len(ns)], "sync": syncs[(i // (len(kts) * len(ns))) % len(syncs)],
+            "strict": i % 5 == 2}
 
 
 def random_walks(num, depth, rnd, keys=(1, 2, 3, 4), contents=("A", "B", "E", "C", "G"), weights=None):
@@ -263,6 +265,27 @@ def build_scenarios(prop, tier, rnd):
                 add(ops, {"kt": KTS[(wi + ni) % len(KTS)], "n": n, "sync": (wi + ni) % 2 == 0}, {"mode": "plain"}, chunk=[6, 0, 3, 2, 5][ni] + wi)
         # one store with the pre-created directory tree (commit skips mkdir there): reclaim a content, store it again
         add(WITNESS[9], {"kt": "string", "n": 3, "sync": True, "pre": True}, {"mode": "plain"}, chunk=1)
+        if prop == "C13":
+            # abandoned transactions of contents beyond every internal size class (300 000 bytes, 1.2 MB), every chunking
+            big = [{"op": "put", "k": 1, "c": "A"}, {"op": "abort", "k": 1, "c": "M"}, {"op": "abort", "k": 2, "c": "H"}, {"op": "put", "k": 2, "c": "B"},
+                   {"op": "abort", "k": 2, "c": "M"}, {"op": "put", "k": 3, "c": "M"}, {"op": "abort", "k": 3, "c": "M"}, {"op": "abort", "k": 4, "c": "G"},
+                   {"op": "reopen"}, {"op": "abort", "k": 1, "c": "H"}, {"op": "put", "k": 4, "c": "C"}]
+            for ch in range(7 if not q else 4):
+                add(big, {"kt": KTS[ch % len(KTS)], "n": [3, 10000, 1][ch % 3], "sync": True}, {"mode": "plain"}, chunk=ch)
+            # very many abandoned transactions in one session (more than any plausible cap on open transactions /
+            # descriptors / pooled buffers), then ordinary use
+            many = []
+            for i in range(140 if q else 600):
+                many.append({"op": "abort", "k": 1 + i % 4, "c": ["A", "B", "C", "E"][i % 4]})
+            many = many[:70] + [{"op": "put", "k": 1, "c": "A"}] + many[70:] + [{"op": "abort", "k": 1, "c": "G"}] * (140 if q else 200) + \
+                [{"op": "put", "k": 2, "c": "B"}, {"op": "put", "k": 1, "c": "G"}, {"op": "del", "k": 2}, {"op": "reopen"}]
+            add(many, {"kt": "string", "n": 10000, "sync": True}, {"mode": "plain"}, chunk=3)
+        if prop == "C02":
+            # a restart right after ONE very large log record (a range removal over many / long keys: 1.3 MB, 4 MB) and
+            # after a removal whose record is the last of its segment
+            for j, (bn, kl, ck, wn) in enumerate([(150, 9000, True, 10000), (1300, 0, False, 1000)] if q else
+                                                 [(150, 9000, True, 10000), (1300, 0, False, 1000), (450, 9000, False, 3), (5000, 40, True, 5003)]):
+                add([], {"kt": "string", "n": wn, "sync": j % 2 == 0}, {"mode": "bulk", "n": bn, "distinct": 1, "ckpt": ck, "keylen": kl})
         # big-record key types
         for i, ops in enumerate(long_[: (10 if q else 100)]):
             add(ops, dict(variants(i), kt=["string_big", "bytes_big"][i % 2]), {"mode": "plain"}, chunk=i)
@@ -291,6 +314,12 @@ def build_scenarios(prop, tier, rnd):
                 add(pre + tail, {"kt": ["string", "u32"][j % 2], "n": n, "sync": True},
                     {"mode": "crash", "nested": False, "cont": True, "from": max(1, len(pre) - 2)}, chunk=j)
         if prop == "C03":
+            # first-time initialisation with the pre-created directory tree (65 792 mkdirs): images at a sparse selection of
+            # its boundaries; every recovered store must be fully usable for contents in any cas/ sub-directory
+            cont = [{"op": "cleanup"}] + [{"op": "put", "k": 1 + i % 4, "c": c} for i, c in enumerate(["A", "B", "C", "E", "G"])] + \
+                   ([] if q else [{"op": "del", "k": 2}, {"op": "ckpt"}, {"op": "reopen"}])
+            add([{"op": "put", "k": 1, "c": "A"}], {"kt": "string", "n": 2, "sync": True, "pre": True},
+                {"mode": "crash", "nested": False, "cont": True, "cont_ops": cont, "sparse_open": "few" if q else "more"})
             # block abstraction: a range removal over MANY keys (more than any plausible internal batch) is still one
             # operation; an image at every boundary inside it recovers to all-or-nothing
             for j, (bn, dist, ck, wn) in enumerate([(1300, 1, True, 1000), (70, 7, False, 3)] if q else
@@ -335,9 +364,12 @@ def build_scenarios(prop, tier, rnd):
             fx = [[{"op": "put", "k": 1, "c": "A"}, {"op": "put", "k": 2, "c": "B"}, {"op": "put", "k": 3, "c": "A"}, {"op": "put", "k": 1, "c": "B"},
                    {"op": "ckpt"}, {"op": "put", "k": 2, "c": "A"}, {"op": "del", "k": 1}, {"op": "put", "k": 3, "c": "B"}],
                   [{"op": "put", "k": 1, "c": "A"}, {"op": "reopen"}, {"op": "put", "k": 2, "c": "B"}, {"op": "delr", "lo": ["U", 0], "hi": ["U", 0]},
-                   {"op": "put", "k": 1, "c": "B"}, {"op": "put", "k": 2, "c": "B"}]]
+                   {"op": "put", "k": 1, "c": "B"}, {"op": "put", "k": 2, "c": "B"}],
+                  # a failed append burns a version; a checkpoint stamps it; restart; one more operation; restart
+                  [{"op": "put", "k": 1, "c": "A"}, {"op": "put", "k": 2, "c": "B"}, {"op": "ckpt"}, {"op": "reopen"}, {"op": "put", "k": 3, "c": "A"},
+                   {"op": "reopen"}, {"op": "del", "k": 1}, {"op": "ckpt"}, {"op": "reopen"}, {"op": "put", "k": 1, "c": "B"}]]
             for i, ops in enumerate(fx + (walks[:4] if q else walks[:60])):
-                add(ops, {"kt": ["string", "bytes"][i % 2], "n": [2, 3, 1, 4][i % 4], "sync": True}, {"mode": "fault", "errno": ["EIO", "ENOSPC"][i % 2]}, chunk=i)
+                add(ops, {"kt": ["string", "bytes"][i % 2], "n": [2, 3, 10000, 4, 1][i % 5], "sync": True}, {"mode": "fault", "errno": ["EIO", "ENOSPC"][i % 2]}, chunk=i)
         if prop == "C08":
             base = [[{"op": "put", "k": 1, "c": "A"}, {"op": "put", "k": 2, "c": "B"}, {"op": "put", "k": 3, "c": "A"}, {"op": "ckpt"}],
                     [{"op": "put", "k": 1, "c": "G"}, {"op": "put", "k": 2, "c": "E"}, {"op": "put", "k": 3, "c": "C"}, {"op": "put", "k": 4, "c": "B"}],
@@ -373,14 +405,14 @@ def build_scenarios(prop, tier, rnd):
         for i, ops in enumerate(fixed + walks):
             # no reopen/ckpt at the end: leave an uncheckpointed tail
             ops = [o for o in ops if o["op"] != "reopen"] if i % 2 else ops
-            cfg = {"kt": ["string", "bytes", "i64", "string_big"][i % 4], "n": [3, 10000, 2][i % 3], "sync": True}
+            cfg = {"kt": ["string", "bytes", "i64", "string_big"][i % 4], "n": [3, 10000, 2][i % 3], "sync": True, "strict": i % 2 == 1}
             # every offset and every checksum/payload byte, also in the quick tier (a single unlucky byte matters)
             add(ops, cfg, {"mode": "damage", "stride": 1, "flipvals": ([255] if q else [1, 128, 255])}, chunk=i)
         # crash images in which the un-checkpointed records span two segment files
         two = [[{"op": "put", "k": 1, "c": "A"}, {"op": "put", "k": 2, "c": "B"}, {"op": "put", "k": 3, "c": "A"}],
                [{"op": "put", "k": 1, "c": "A"}, {"op": "del", "k": 1}, {"op": "put", "k": 2, "c": "B"}, {"op": "put", "k": 3, "c": "E"}]]
         for i, ops in enumerate(two if q else two + walks[:20]):
-            add(ops, {"kt": ["string", "bytes"][i % 2], "n": [2, 3][i % 2] if i < 2 else 2, "sync": True},
+            add(ops, {"kt": ["string", "bytes"][i % 2], "n": [2, 3][i % 2] if i < 2 else 2, "sync": True, "strict": i % 2 == 0},
                 {"mode": "damage", "crash": "two_segments", "stride": 1, "flipvals": [255]}, chunk=i)
     elif prop == "C14":
         walks = random_walks(10 if q else 120, 5 if q else 8, rnd, keys=(1, 2), contents=("A", "B", "G"))
@@ -390,6 +422,12 @@ def build_scenarios(prop, tier, rnd):
                  [{"op": "put", "k": 1, "c": "A"}, {"op": "put", "k": 2, "c": "B"}, {"op": "reopen"}, {"op": "put", "k": 3, "c": "A"},
                   {"op": "del", "k": 1}, {"op": "reopen"}, {"op": "put", "k": 1, "c": "B"}, {"op": "ckpt"}, {"op": "put", "k": 2, "c": "A"}],
                  [{"op": "put", "k": 1, "c": "G"}, {"op": "reopen"}, {"op": "put", "k": 1, "c": "A"}, {"op": "reopen"}, {"op": "del", "k": 1}],
+                 # a failed removal of one holder of a shared content, then the other holder is removed (reclaims the blob), restart
+                 [{"op": "put", "k": 1, "c": "A"}, {"op": "put", "k": 2, "c": "A"}, {"op": "put", "k": 3, "c": "B"}, {"op": "del", "k": 1}, {"op": "del", "k": 2},
+                  {"op": "reopen"}, {"op": "put", "k": 3, "c": "A"}, {"op": "delr", "lo": ["I", 1], "hi": ["I", 2]}],
+                 # a failed append burns a version; a checkpoint stamps it; restart; one more operation; restart
+                 [{"op": "put", "k": 1, "c": "A"}, {"op": "put", "k": 2, "c": "B"}, {"op": "ckpt"}, {"op": "reopen"}, {"op": "put", "k": 3, "c": "A"},
+                  {"op": "reopen"}, {"op": "del", "k": 1}, {"op": "ckpt"}, {"op": "reopen"}, {"op": "put", "k": 1, "c": "B"}],
                  # a failed checkpoint (rollover or explicit) followed by checkpoints with nothing new, then a restart
                  [{"op": "put", "k": 1, "c": "A"}, {"op": "put", "k": 2, "c": "B"}, {"op": "put", "k": 3, "c": "A"}, {"op": "ckpt"}, {"op": "ckpt"},
                   {"op": "reopen"}, {"op": "put", "k": 1, "c": "B"}, {"op": "ckpt"}, {"op": "ckpt"}]]
